@@ -58,7 +58,7 @@ class FullCheck(BaseCheck):
     balancer = rng.choice(['aperture', 'aperture', 'heap'])
     open_timeout = rng.choice([None, None, 0])
     boundary = rng.random() < 0.15
-    scripted = rng.random() < 0.35
+    scripted = rng.random() < bias.get('scripted', 0.35)
     fault_p = rng.choice([0.0, 0.0, 0.01, 0.05])
     conn_lat = rng.choice([0.0005, 0.0005, 0.02, 0.3, 1.5])
     first_mode = rng.choice(['up', 'up', 'up', 'refuse', 'blackhole'])
@@ -189,7 +189,7 @@ class FullCheck(BaseCheck):
     for _ in range(rng.choice([0, 0, 1, 2, 4])):
       events.append((rng.random() * horizon, rng.choice(['server-down', 'server-up', 'kill-conns'])))
     if scripted:
-      for _ in range(rng.choice([0, 1, 2, 4])):
+      for _ in range(rng.choice([0, 1, 2, 4]) + (rng.choice([2, 5, 9]) if bias.get('membership') else 0)):
         events.append((rng.random() * horizon, rng.choice(['leave', 'join'])))
     events.sort(key=lambda e: e[0])
     t_start = env.now
@@ -394,6 +394,30 @@ class FullCheck(BaseCheck):
             viol('load:nonzero-at-quiescence', 'member %s: balancer attributes load %r at quiescence (all %d calls '
                  'completed, quiet for %.1fs)' % (n.endpoint, al, len(w.calls), 2 * tmax + 1.0),
                  {'balancer': balancer, 'sign': 'neg' if al < 0 else 'pos'}, {'raw': n.load})
+    except ImportError:
+      pass
+    # -------- C05 at full-stack quiescence: eligible endpoints == current server set
+    try:
+      from scales.loadbalancer.heap import HeapBalancerSink as _H
+      lb5 = w.dispatcher.next_sink
+      hops = 0
+      while lb5 is not None and not isinstance(lb5, _H) and hops < 8:
+        lb5 = getattr(lb5, 'next_sink', None)
+        hops += 1
+      if isinstance(lb5, _H) and w.ss is not None and getattr(w.ss, 'pending', 0) == 0 and \
+          w.dispatcher._open_ar is not None and w.dispatcher._open_ar.ready():
+        ob('membership:')
+        heap_eps = [(n.endpoint.host, n.endpoint.port) for n in lb5._heap[1:]]
+        idle = set((e.host, e.port) for e in getattr(lb5, '_idle_endpoints', ()))
+        truth = set(w.ss.truth)
+        eligible = set(heap_eps) | idle
+        if len(heap_eps) != len(set(heap_eps)) or (set(heap_eps) & idle):
+          viol('membership:duplicate', 'endpoint twice in the balancer (active %r, idle %r)' % (sorted(heap_eps), sorted(idle)),
+               {'balancer': balancer})
+        elif eligible != truth:
+          viol('membership:differs', 'at quiescence the balancer can dispatch to %r, the server set is %r' % (
+            sorted(eligible), sorted(truth)), {'balancer': balancer, 'missing': bool(truth - eligible),
+                                               'extra': bool(eligible - truth)})
     except ImportError:
       pass
     # -------- C04 removal at full-stack quiescence: a member that left (and did not re-join)
